@@ -183,6 +183,7 @@ type goLayout struct {
 	blocks map[string]int // block type -> field
 	nested map[string]*goLayout
 	rest   map[string]bool // attrs-mode block types (struct{Rest map[string]T `,remain`})
+	remain int             // Partial: field of type hcl.Body tagged `,remain`
 }
 
 func buildGo(s *Schema, labelNames []string) *goLayout {
@@ -232,8 +233,35 @@ func buildGo(s *Schema, labelNames []string) *goLayout {
 		}
 		l.blocks[b.Type] = add(bt, b.Type+",block")
 	}
+	if s.Partial {
+		if s.RemainKind == "struct" {
+			l.remain = add(extraGo(s.Extras), ",remain")
+		} else {
+			l.remain = add(bodyIfaceType, ",remain")
+		}
+	}
 	l.typ = reflect.StructOf(fs)
 	return l
+}
+
+var bodyIfaceType = reflect.TypeOf((*hcl.Body)(nil)).Elem()
+
+// extraSpec / extraGo: stage two of a partial decode: exactly the given attribute names,
+// each optional, dynamically typed.
+func extraSpec(names []string) hcldec.Spec {
+	obj := hcldec.ObjectSpec{}
+	for _, n := range names {
+		obj[n] = &hcldec.AttrSpec{Name: n, Type: cty.DynamicPseudoType}
+	}
+	return obj
+}
+
+func extraGo(names []string) reflect.Type {
+	var fs []reflect.StructField
+	for i, n := range names {
+		fs = append(fs, reflect.StructField{Name: fmt.Sprintf("X%d", i), Type: ctyValueType, Tag: reflect.StructTag(`yaotl:"` + n + `,optional"`)})
+	}
+	return reflect.StructOf(fs)
 }
 
 // ---------------------------------------------------------------------------------
@@ -264,6 +292,8 @@ type DecResult struct {
 
 	cv cty.Value
 	gv reflect.Value
+	xv cty.Value     // stage two (Partial): object of the extra attributes
+	xg reflect.Value // stage two (Partial): struct of cty.Value fields
 }
 
 func diagStrings(d hcl.Diagnostics) []string {
@@ -321,7 +351,8 @@ func (p *parsedForm) body(f *Form) hcl.Body {
 	return body
 }
 
-func decodeSpec(f *Form, p *parsedForm, spec hcldec.Spec) *DecResult {
+// extras: nil = strict one-stage decode; otherwise (Schema.Partial) the names for stage two.
+func decodeSpec(f *Form, p *parsedForm, spec hcldec.Spec, partial bool, extras []string) *DecResult {
 	res := &DecResult{}
 	if p.diags.HasErrors() {
 		res.Err = true
@@ -329,14 +360,26 @@ func decodeSpec(f *Form, p *parsedForm, spec hcldec.Spec) *DecResult {
 		return res
 	}
 	res.Parsed = true
-	v, d := hcldec.Decode(p.body(f), spec, &hcl.EvalContext{})
+	if !partial {
+		v, d := hcldec.Decode(p.body(f), spec, &hcl.EvalContext{})
+		res.Err = d.HasErrors()
+		res.Diags = diagStrings(d)
+		res.cv = v
+		return res
+	}
+	v, remain, d := hcldec.PartialDecode(p.body(f), spec, &hcl.EvalContext{})
+	res.cv = v
+	if remain != nil {
+		xv, d2 := hcldec.Decode(remain, extraSpec(extras), &hcl.EvalContext{})
+		d = append(d, d2...)
+		res.xv = xv
+	}
 	res.Err = d.HasErrors()
 	res.Diags = diagStrings(d)
-	res.cv = v
 	return res
 }
 
-func decodeTags(f *Form, p *parsedForm, lay *goLayout) *DecResult {
+func decodeTags(f *Form, p *parsedForm, lay *goLayout, partial bool, extras []string) *DecResult {
 	res := &DecResult{}
 	if p.diags.HasErrors() {
 		res.Err = true
@@ -346,9 +389,19 @@ func decodeTags(f *Form, p *parsedForm, lay *goLayout) *DecResult {
 	res.Parsed = true
 	target := reflect.New(lay.typ)
 	d := gohcl.DecodeBody(p.body(f), &hcl.EvalContext{}, target.Interface())
+	res.gv = target.Elem()
+	if partial && lay.typ.Field(lay.remain).Type != bodyIfaceType {
+		res.xg = target.Elem().Field(lay.remain) // gohcl decoded the remaining body itself
+	} else if partial {
+		if remain, ok := target.Elem().Field(lay.remain).Interface().(hcl.Body); ok && remain != nil {
+			x := reflect.New(extraGo(extras))
+			d2 := gohcl.DecodeBody(remain, &hcl.EvalContext{}, x.Interface())
+			d = append(d, d2...)
+			res.xg = x.Elem()
+		}
+	}
 	res.Err = d.HasErrors()
 	res.Diags = diagStrings(d)
-	res.gv = target.Elem()
 	return res
 }
 
@@ -379,6 +432,12 @@ func renderGoInto(sb *strings.Builder, v reflect.Value, depth int) {
 		return
 	}
 	switch v.Kind() {
+	case reflect.Interface:
+		if v.IsNil() {
+			sb.WriteString("nil")
+		} else {
+			fmt.Fprintf(sb, "<%s>", v.Elem().Type())
+		}
 	case reflect.Ptr:
 		if v.IsNil() {
 			sb.WriteString("nil")
